@@ -439,7 +439,7 @@ Non-trivial = at least one NAK was answered by a retransmission, or the first pa
         build(&mut rng, Some(c))
     });
     ctx.section = "random-naks".into();
-    let n = ctx.tier.pick(40_000u64, 500_000);
+    let n = ctx.tier.pick(40_000u64, 2_000_000);
     ctx.drive_indexed(&part, n, false, |i| {
         let mut rng = Prng::new(mix(seed ^ 0x77, i));
         build(&mut rng, None)
